@@ -39,7 +39,9 @@ func padWanted(t *rapid.T) bool {
 	if core.Tier() == "thorough" {
 		n = 40
 	}
-	return rapid.IntRange(0, n-1).Draw(t, "pad") == n-1
+	// not an end of the range: rapid favours the ends; 0 (no padding) is where shrinking goes
+	v := rapid.IntRange(0, n-1).Draw(t, "pad")
+	return v == n/2 || v == n/3
 }
 
 // choosePad picks a boundary with a block before and a block after it, and a size.
@@ -228,7 +230,14 @@ func expandPad(src string, cfg profile.HavocConfig, p *Pad) (text []byte, want p
 	var pad string
 	switch p.Kind {
 	case "heredoc", "list", "map":
-		pad = structured(p.Kind, need, &want)
+		// the value-carrying block is capped (converting a tuple of n strings to a list is quadratic
+		// in this cty version: 1 MiB of list elements takes seconds, 4 MiB a minute); comment lines
+		// make up the rest of the requested size
+		limit := map[string]int{"heredoc": 2 << 20, "list": 96 << 10, "map": 1 << 20}[p.Kind]
+		if limit > need {
+			limit = need
+		}
+		pad = structured(p.Kind, limit, &want)
 		pad += filler(need-len(pad), "hash", nl)
 	default:
 		pad = filler(need, p.Kind, nl)
